@@ -71,14 +71,20 @@ Definition spec_interlace (rows : list (list A)) : list (list (list A)) :=
   map (fun p => pass_lines p 0 rows) passes7.
 
 (* the inverse direction: pixel (x,y) of the full image is pixel ((x - x0)/dx, (y - y0)/dy) of
-   its pass *)
-Definition spec_pixel_at (d : A) (passes : list (list (list A))) (x y : Z) : A :=
+   its pass; a pixel that its pass does not contain makes the image undecodable *)
+Definition spec_pixel_at (passes : list (list (list A))) (x y : Z) : option A :=
   let p := pass_of x y in
-  let pass := nth (Z.to_nat (p - 1)) passes [] in
-  nth (Z.to_nat ((x - x0 p) / dx p)) (nth (Z.to_nat ((y - y0 p) / dy p)) pass []) d.
+  match nth_error passes (Z.to_nat (p - 1)) with
+  | Some pass =>
+      match nth_error pass (Z.to_nat ((y - y0 p) / dy p)) with
+      | Some row => nth_error row (Z.to_nat ((x - x0 p) / dx p))
+      | None => None
+      end
+  | None => None
+  end.
 
-Definition spec_deinterlace (d : A) (w h : Z) (passes : list (list (list A))) : list (list A) :=
-  map (fun y => map (fun x => spec_pixel_at d passes (Z.of_nat x) (Z.of_nat y)) (seq 0 (Z.to_nat w)))
-      (seq 0 (Z.to_nat h)).
+Definition spec_deinterlace (w h : Z) (passes : list (list (list A))) : option (list (list A)) :=
+  all_some (map (fun y => all_some (map (fun x => spec_pixel_at passes (Z.of_nat x) (Z.of_nat y)) (seq 0 (Z.to_nat w))))
+                (seq 0 (Z.to_nat h))).
 
 End Pix.
